@@ -73,6 +73,10 @@ class PooledCycleResource(Entity):
         self._queue: deque[Event] = deque()
         self._completed = 0
         self._rejected = 0
+        # Units freed by a completing cycle and promised to the item it took
+        # out of the queue; that item is on its way back to this entity.
+        self._reserved = 0
+        self._handed_over: set[Event] = set()
 
     def downstream_entities(self) -> list[Entity]:
         if self.downstream is not None:
@@ -118,7 +122,13 @@ class PooledCycleResource(Entity):
         )
 
     def handle_event(self, event: Event) -> Generator[float, None, list[Event]] | list[Event]:
-        if self._available > 0:
+        if event in self._handed_over:
+            # Dequeued by a completing cycle: the freed unit was kept for it.
+            self._handed_over.discard(event)
+            self._reserved -= 1
+            return self._start_cycle(event)
+
+        if self._available - self._reserved > 0:
             return self._start_cycle(event)
 
         # No unit available — try to queue
@@ -164,16 +174,19 @@ class PooledCycleResource(Entity):
             )
 
         # Try to dequeue next waiting item
-        if self._queue and self._available > 0:
+        if self._queue and self._available - self._reserved > 0:
             next_event = self._queue.popleft()
-            # Schedule dequeued item for immediate processing
-            results.append(
-                Event(
-                    time=self.now,
-                    event_type=next_event.event_type,
-                    target=self,
-                    context=next_event.context,
-                )
+            # Schedule dequeued item for immediate processing. The unit stays
+            # reserved for it: an arrival delivered earlier in this instant
+            # must not take it and push the dequeued item back into the queue.
+            handover = Event(
+                time=self.now,
+                event_type=next_event.event_type,
+                target=self,
+                context=next_event.context,
             )
+            self._reserved += 1
+            self._handed_over.add(handover)
+            results.append(handover)
 
         return results
